@@ -17,7 +17,8 @@ EXPLANATION = (
     "and helper bounds equal the declared bounds of the weight (V2); (R3) weights are integer variables iff weight_type == int and the "
     "getters round()/float() under the same test; the weight bound w_max is at least the largest non-ignored flow value; (R4) the greedy "
     "route is accepted only if it fits in k paths and meets every constraint, and it publishes the weights the decomposition returned "
-    "(edge and node branches agree).  NOT decided: solver tolerance, float rounding, that peeled greedy weights add up, Eulerian "
+    "(edge and node branches agree); (R5) the walk handed out traverses each edge exactly as often as the solver decided (linear-use rule of "
+    "C14); (R6) no write to caller objects / shared defaults.  NOT decided: solver tolerance, float rounding, that peeled greedy weights add up, Eulerian "
     "reconstruction beyond C14's clause."
 )
 DECIDED = ["10d equality present, complete and exact in all flow encoders", "product linking exact for every non-ignored edge and layer",
@@ -73,3 +74,12 @@ def check(prog: Program, rep):
     adoption_guards(prog, rep, "C02.R4")
     greedy_rejection(prog, rep, "C02.R4")
     greedy_publishes(prog, rep, "C02.R4")
+    rep.rule("C02.R5", "walk reconstruction conserves the solver's multiplicities (shared with C14.R1)", floor=6)
+    from rules import c14
+    c14.trail_loop_rule(prog, rep, "C02.R5", prog.own_method("AbstractWalkModelDiGraph", "_reconstruct_eulerian_walk"), ("walk",))
+    c14.trail_loop_rule(prog, rep, "C02.R5", prog.own_method("AbstractWalkModelDiGraph", "_build_closed_walk_from_vertex"), ("closed_walk",))
+    c14.residual_rule(prog, rep, "C02.R5")
+    c14.splice_rule(prog, rep, "C02.R5")
+    rep.rule("C02.R6", "the model's ignore set / options derive only from this call's arguments (no write to caller objects or shared defaults)", floor=4)
+    from rules.c18 import class_inputs_not_mutated
+    class_inputs_not_mutated(prog, rep, "C02.R6", FLOW_MODELS)
